@@ -21,7 +21,7 @@
 From stdpp Require Import gmap.
 From Coq Require Import List NArith.
 From P9 Require Import Model.SessLock Proofs.SessLockProofs Proofs.SessLockProofsLin Proofs.SessLockProofsScopes Proofs.SessLockProofsTie.
-From P9 Require Import Proofs.SessLockProofsLinAll Proofs.SessLockProofsLinAll2 Proofs.SessLockProofsLinAll3.
+From P9 Require Import Proofs.SessLockProofsLinAll Proofs.SessLockProofsLinAll2 Proofs.SessLockProofsLinAll3 Proofs.SessLockSession.
 From P9 Require Import Gen.GenSessLock.
 
 (* the programs below were transcribed from the methods whose lock-protocol trace sets (over all syntactic
@@ -204,15 +204,27 @@ Print Assumptions C14_linearizable_small_scopes.
    all: from a state in which no mutex is held - the state between operations, by
    C14_unlocked_at_quiescence - every operation, every script, returns a result (never the "would block
    for ever" outcome) and leaves every mutex free, so sequential runs compose.
-   GAP: [seq_op] is not formally related to Model/Session.v's [sstep] (C08): the two models number the
-   FileSys' entries differently and assume different harness reads of directories; each is tied to the
-   implementation by its own correspondence run, and the harness's linearizability oracle uses the
-   implementation itself, run one operation at a time, as the sequential reference. *)
+   GAP: [seq_op] is not related to Model/Session.v's [sstep] (C08) by a THEOREM over all states: the two models
+   number the FileSys' entries differently and have different environments; each is tied to the implementation
+   by its own correspondence run, and the harness's linearizability oracle uses the implementation itself, run one
+   operation at a time, as the sequential reference.  What exists (C14_seq_agrees_with_session_small_scopes
+   below) is the translation and the state/identity relation as executable checks, and their agreement on five
+   operation sequences covering every operation kind both models have - bounded evidence, not a simulation. *)
 Theorem C14_seq : forall reqauth s h,
   owner s = ∅ ->
   exists r cs, snd (seq_op reqauth s h) = Some (r, cs) /\ owner (fst (seq_op reqauth s h)) = ∅.
 Proof. exact seq_op_returns. Qed.
 Print Assumptions C14_seq.
+
+(* [seq_op] and Session.v's [sstep] run side by side (Proofs/SessLockSession.v: operation, script -> tokens,
+   error -> result class, call -> kind and entity; the entities related by a renaming learnt call by call; the fid
+   tables compared fid by fid: bound, entry/directory bit, file kind, open mode, nothing locked) agree after every
+   operation of five sequences (18+14+16+23+21 operations: every client operation kind of both models, success
+   and failure paths, roll-backs, in-place walks, create of a directory that cannot be opened).  BOUNDED: by
+   vm_compute on these sequences; the simulation for all states is stated at the end of that file and is open. *)
+Theorem C14_seq_agrees_with_session_small_scopes : forallb agree link_scenarios = true.
+Proof. exact link_scenarios_agree. Qed.
+Print Assumptions C14_seq_agrees_with_session_small_scopes.
 
 (* ---- non-vacuity: the predicates reject the two defects this property was written about, the
    hypotheses of mutex/progress are satisfiable, the checker accepts and rejects ---- *)
